@@ -435,6 +435,13 @@ class NP:
     def arctan2(self, y, x):
         if isinstance(y, (SV,)) or isinstance(x, SV):
             return theory.arctan2(y, x)
+        if isinstance(y, GVec) or isinstance(x, GVec):
+            g = y if isinstance(y, GVec) else x
+            yv = y.val if isinstance(y, GVec) else y
+            xv = x.val if isinstance(x, GVec) else x
+            if isinstance(yv, _Generic) or isinstance(xv, _Generic):
+                raise Unsupported("arctan2 of mixed generic arrays")
+            return g._new(theory.arctan2(yv, xv))
         if _has_sym(y) or _has_sym(x):
             ya, xa = _np.broadcast_arrays(obj(y), obj(x))
             out = _np.empty(ya.shape, dtype=object).view(OA)
@@ -454,6 +461,11 @@ class NP:
             return VArr(shape, _ite(ce, ae, be))
         if not ab and hasattr(c, "where"):
             return c.where()
+        if not ab and isinstance(c, GVec):
+            # np.where(mask) of a per-row boolean vector: the positions where it holds; only usable as an index into a vector of the same
+            # layout (v[np.where(mask)] = x  is  v[mask] = x)
+            c.is_where_result = True
+            return (c,)
         if not ab:
             if isinstance(c, _np.ndarray) and c.dtype == object and any(isinstance(x, SB) for x in c.flat):
                 return MaskIndex(c) if c.ndim != 1 else (MaskIndex(c),)
